@@ -75,7 +75,7 @@ void task_body(int id) {
     if (ct >= 0) {
       int target = (int)(ct % (3 * N));
       long rid = sim::cell_get(C_RUNID_BASE + target);
-      if (rid != 0 && target != id) {
+      if (rid != 0) {   // the target may be the running task itself (cancel must then answer false)
         bool ok = W.loop->cancel((Loop::RunId)rid);
         sim::hist(H_CANCEL, target, ok, id);
         sim::relevant();
